@@ -292,6 +292,12 @@ def _grouping_is_safe(choices: list[ChoiceChoice]) -> bool:
     for i, choice in enumerate(choices):
         if not isinstance(choice, ChoiceLiteral) or len(choice.value) == 1:
             continue
+        if not choice.value:
+            # The empty literal always matches: it must stay behind every
+            # alternative that precedes it.
+            if i > 0:
+                return False
+            continue
         for earlier in choices[:i]:
             moved_behind = not (
                 isinstance(earlier, ChoiceLiteral)
